@@ -10,6 +10,7 @@ def encErr : EncErr → PyVal
   | .overflow => .list [.str "err", .str "overflow"]
   | .codec => .list [.str "err", .str "codec"]
   | .unknownOp => .list [.str "err", .str "unknownOp"]
+  | .attribute => .list [.str "err", .str "raises AttributeError"]
 
 def decErr : DecErr → PyVal
   | .malformed => .list [.str "err", .str "malformed"]
